@@ -7,6 +7,7 @@ import Restful.Model.Mime
 import Restful.Spec.Mime
 import Restful.Lemmas.SplitOn
 import Restful.Lemmas.Detect
+import Restful.Lemmas.Entity
 namespace Restful
 namespace Mime
 open Str
@@ -453,6 +454,141 @@ theorem best_isSome_of {a : Str} {P reg : List Str} (h : WF P reg)
   have hne : a.isEmpty = false := by cases a <;> simp_all
   simp only [Spec.F07b, hne, hacc, Bool.not_false, Bool.true_and, Option.isNone_eq_false_iff] at h07b
   exact Option.isSome_iff_exists.mp h07b
+
+/-! ### the answer is a function of the request (since 8b400b4) -/
+
+/-- at most one value: any two elements are equal -/
+def OneVal (l : List Str) : Prop := ∀ m ∈ l, ∀ m' ∈ l, m = m'
+
+theorem oneVal_nil : OneVal [] := fun _ h => by cases h
+
+theorem accessorAt_function (reg : List Str) (x : Str) : OneVal (accessorAt reg x) := by
+  unfold accessorAt
+  intro m hm m' hm'
+  by_cases hc : reg.contains x = true
+  · simp only [hc, if_true, List.mem_singleton] at hm hm'
+    rw [hm, hm']
+  · simp only [hc, Bool.false_eq_true, if_false, List.mem_filter] at hm hm'
+    exact Entity.firstLongest_unique hm.1 hm'.1 hm.2 hm'.2
+
+/-- the reverse lookup finds a key as soon as one occurs in the value -/
+theorem accessorAt_ne_nil_of_contains {reg : List Str} {x k : Str} (hk : k ∈ reg) (hc : containsSub k x = true) :
+    accessorAt reg x ≠ [] := by
+  unfold accessorAt
+  by_cases hx : reg.contains x = true
+  · simp [List.contains_iff_mem.mp hx]
+  · obtain ⟨w, hw, hwin⟩ := Entity.firstLongest_exists (keys := reg) (v := x) ⟨k, hk, hc⟩
+    simp only [hx, Bool.false_eq_true, if_false]
+    intro hnil
+    have : w ∈ reg.filter (firstLongest reg x) := List.mem_filter.mpr ⟨hw, hwin⟩
+    rw [hnil] at this
+    cases this
+
+theorem walkProduces_function (reg : List Str) (media : Str) (P : List Str) : OneVal (walkProduces reg media P) := by
+  induction P with
+  | nil => exact oneVal_nil
+  | cons p ps ih =>
+    unfold walkProduces
+    by_cases hp : p = media
+    · simp only [hp, if_true]
+      split
+      · exact ih
+      · exact accessorAt_function reg media
+    · simp only [hp, if_false]
+      exact ih
+
+theorem firstProduced_function (reg : List Str) (P : List Str) : OneVal (firstProduced reg P) := by
+  induction P with
+  | nil => exact oneVal_nil
+  | cons p ps ih =>
+    unfold firstProduced
+    simp only
+    split
+    · exact ih
+    · exact accessorAt_function reg p
+
+theorem walk_function (reg P : List Str) (ms : List Mime) : OneVal (walk reg P ms) := by
+  induction ms with
+  | nil => exact oneVal_nil
+  | cons m ms ih =>
+    unfold walk
+    simp only
+    split
+    · exact walkProduces_function reg m.media P
+    · split
+      · split
+        · exact firstProduced_function reg P
+        · exact ih
+      · exact ih
+
+theorem entityWriter_function (a : Str) (P reg : List Str) (d : Str) : OneVal (entityWriter a P reg d) := by
+  unfold entityWriter entityWriterTagged
+  simp only
+  generalize sortedMimes (if a.isEmpty then starStar else a) = S
+  by_cases h1 : (!(walk reg P S).isEmpty) = true
+  · rw [if_pos h1]; exact walk_function _ _ _
+  rw [if_neg h1]
+  by_cases h2 : (!(accessorAt reg a).isEmpty) = true
+  · rw [if_pos h2]; exact accessorAt_function _ _
+  rw [if_neg h2]
+  by_cases h3 : d = mimeJSON
+  · rw [if_pos h3]; exact accessorAt_function _ _
+  rw [if_neg h3]
+  by_cases h4 : d = mimeXML
+  · rw [if_pos h4]; exact accessorAt_function _ _
+  rw [if_neg h4]
+  by_cases h5 : d = mimeZIP
+  · rw [if_pos h5]; exact accessorAt_function _ _
+  rw [if_neg h5]
+  by_cases h6 : (!(firstProduced reg P).isEmpty) = true
+  · rw [if_pos h6]; exact firstProduced_function _ _
+  rw [if_neg h6]; exact oneVal_nil
+
+/-! ### inside F07b: what the fallbacks answer -/
+
+/-- inside F07b the header is present and the walk over its well-formed ranges finds nothing -/
+theorem walk_nil_of_F07b {a : Str} {P reg : List Str} (h : WF P reg) (h07b : Spec.F07b a P reg = true) :
+    a.isEmpty = false ∧ walk reg P (sortedMimes (if a.isEmpty then starStar else a)) = [] := by
+  simp only [Spec.F07b, Bool.and_eq_true, Bool.not_eq_true', Option.isNone_iff_eq_none] at h07b
+  obtain ⟨⟨hne, _⟩, hbest⟩ := h07b
+  refine ⟨hne, ?_⟩
+  rw [best_eq h] at hbest
+  rw [walk_eq h.sub h.ne]
+  cases hf : (sortedMimes (if a.isEmpty then starStar else a)).find? (satB P) with
+  | none => rfl
+  | some r => rw [hf] at hbest; simp at hbest
+
+/-- … so the raw-header lookup answers, when it finds a key -/
+theorem entityWriter_of_F07b_key {a : Str} {P reg : List Str} (d : Str) (h : WF P reg)
+    (h07b : Spec.F07b a P reg = true) (hk : accessorAt reg a ≠ []) : entityWriter a P reg d = accessorAt reg a := by
+  obtain ⟨_, hw⟩ := walk_nil_of_F07b h h07b
+  unfold entityWriter entityWriterTagged
+  simp only [hw, List.isEmpty_nil, Bool.not_true, Bool.false_eq_true, if_false]
+  have : (!(accessorAt reg a).isEmpty) = true := by
+    cases hacc : accessorAt reg a with
+    | nil => exact absurd hacc hk
+    | cons x xs => rfl
+  rw [if_pos this]
+
+/-- … and the default type, else the first produced type, when it finds none -/
+theorem entityWriter_of_F07b_no_key {a : Str} {P reg : List Str} (d : Str) (h : WF P reg)
+    (h07b : Spec.F07b a P reg = true) (hk : accessorAt reg a = []) :
+    entityWriter a P reg d = if defaultSet d = true then accessorAt reg d else [P.headD []] := by
+  obtain ⟨_, hw⟩ := walk_nil_of_F07b h h07b
+  rw [entityWriter_fallback d hw hk]
+  by_cases hs : defaultSet d = true
+  · rw [if_pos hs]
+    rcases defaultSet_cases hs with e | e | e
+    · rw [if_pos e, e]
+    · have h1 : d ≠ mimeJSON := by rw [e]; decide
+      rw [if_neg h1, if_pos e, e]
+    · have h1 : d ≠ mimeJSON := by rw [e]; decide
+      have h2 : d ≠ mimeXML := by rw [e]; decide
+      rw [if_neg h1, if_neg h2, if_pos e, e]
+  · rw [if_neg hs, default_unset (by simpa using hs), firstProduced_eq _ h.sub]
+    cases P with
+    | nil => exact absurd rfl h.ne
+    | cons p ps => rfl
 
 end Mime
 end Restful
